@@ -124,6 +124,8 @@ class MatrixOp(diff.DiffOperator, operator.CombinableOperator):
 
         mats = matrix_combine(mats[0], op2.mat, mats[1], op2.mat0)
 
+        # every pair for which a second-order array was formed is a pair of the combined operator
+        order2 = order2 | set(d2mats)
         return MatrixOp(
             mats[0],
             mats[1],
